@@ -13,6 +13,7 @@ def dispatch (j : Json) : Except String Json := do
   | "basic" => cmdBasic j
   | "ops" => cmdOps j
   | "adder" => cmdAdder j
+  | "conv" => cmdConv j
   | "sanity" => cmdSanity j
   | "topo" => cmdTopo j
   | _ => throw s!"unknown cmd {cmd}"
